@@ -378,7 +378,7 @@ func normalizeHeaderValue(ov []byte) (nv []byte) {
 	}
 	// blanks at the end of the compacted value (a continuation line of blanks only) are not part of it
 	// either: a single-line value is stripped of them, and so is this one when it is scanned again
-	for write > 0 && nv[write-1] == ' ' {
+	for write > 0 && (nv[write-1] == ' ' || nv[write-1] == '\t') {
 		write--
 	}
 	// Right-align the compacted value and put the blanks in front of it: blanks between the
